@@ -132,6 +132,7 @@ type Lemma struct {
 type TypeSpec struct {
 	Name      string
 	Opaque    bool
+	Valuelike bool
 	Invariant []Clause
 	Pkg       string
 }
@@ -401,6 +402,8 @@ func ParseContractFile(path, pkgPath string) (*ContractFile, error) {
 			switch k2 {
 			case "opaque":
 				ts.Opaque = true
+			case "valuelike":
+				ts.Valuelike = true
 			case "invariant":
 				e, err := ParseSpecExpr(r3)
 				if err != nil {
